@@ -10,6 +10,8 @@
      22, 23    concatenations of two / three pieces: forms x contents x trivia around +
      24        all runs of two and three elements over \\ \n \t \" n t r and plain text
      25        comments (shared body menu) between and around the pieces of "a" + 'x' + "b"
+     26-29     the edges of two- and three-line strings: indentation x trailing blanks x content on the first, the inner
+               and the last line, each value in three spellings (double-quoted, single-quoted, "head" + 'last line')
      100, 101  NRand / 2 layouts each, drawn at random from all the menus (TLC -seed)
    Size selects the menus: "quick" or "thorough".                                 *)
 EXTENDS YangString, Json, SequencesExt, FiniteSets, TLC
@@ -150,6 +152,25 @@ CommentJoins(u_) ==
      : i \in 1..Len(Cmts), sp \in {E0, <<SP>>}}
   \cup {VecAt(25, C("  ") \o Kw \o <<SP>> \o Cmts[i] \o sp, Abx, <<C("+"), C(" + ")>>, sp \o Cmts[i] \o C(";"), <<3>>) : i \in 1..Len(Cmts), sp \in {E0, <<SP>>}}
 
+\* families 26-29: the edges of multi-line strings.  For the last line as for the inner ones: indentation less than, equal
+\* to and beyond the quote column (blanks and tabs) x trailing blanks and tabs (none, one, several) x content (none = a line
+\* of blanks only), and the first line likewise.  Each source is also written in two other spellings of the same value -
+\* single-quoted, and "lines up to the last break" + 'rest' - and TLC checks that the three values agree.
+EdgeInd(q) == LET sp(n) == IF n <= 0 THEN << >> ELSE Spaces(n) IN {<< >>, sp(q - 2), sp(q), sp(q + 2), <<TAB>>, <<SP, TAB>>, sp(q) \o <<TAB>>}
+Spellings(f, pre, src) ==
+  LET q == QC(pre)
+      v == DecodeDQ(src, q)
+      last == TailOf(v)
+      a == Vec(f, pre, <<D(src)>>, << >>, TailMenu[1])
+      b == Vec(f, pre, <<S(v)>>, << >>, TailMenu[1])
+      c == Vec(f, pre, <<D(HeadOf(src)), S(last)>>, <<Joins[1]>>, TailMenu[1])
+  IN IF ~a.judged THEN {a}
+     ELSE IF Assert(b.expect = v /\ a.expect = v /\ (~c.judged \/ c.expect = v), <<"spec fault: the spellings of one value disagree", src, q>>)
+          THEN {a, b, c} ELSE {}
+Edges2(p) == UNION {Spellings(26, Pres[p], src) : src \in Edge2(EdgeInd(QC(Pres[p])), <<LF>>) \cup (IF Thorough \/ p = 1 THEN Edge2(EdgeInd(QC(Pres[p])), <<CR, LF>>) ELSE {})}
+Edges3(p) == LET q == QC(Pres[p])  I == EdgeInd(q) IN
+             UNION {Spellings(27, Pres[p], src) : src \in (IF Thorough THEN Edge3(I, I) ELSE Edge3({<< >>, Spaces(q), Spaces(q + 2), <<TAB>>}, {<< >>, Spaces(q + 2)}))}
+
 \* family 100: everything at random
 RE(seq) == seq[RandomElement(1..Len(seq))]
 RandDq(q) == LET n == RandomElement(1..4)  e == RE(Eols) IN
@@ -163,8 +184,8 @@ Random(u_) == {RandVec(k) : k \in 1..(NRand \div 2)}
 
 \* (the big sets take a dummy parameter: TLC evaluates every parameterless definition once at start-up, single-threaded)
 Cases == IF fam <= Len(Pres) THEN TwoLines(fam)
-         ELSE IF fam = 20 THEN ThreeLines(0) ELSE IF fam = 21 THEN Plain(0) ELSE IF fam = 22 THEN Concat2(0) ELSE IF fam = 23 THEN Concat3(0) ELSE IF fam = 24 THEN Escapes(0) ELSE IF fam = 25 THEN CommentJoins(0) ELSE Random(0)
-GInit == fam \in PreFams \cup {20, 21, 22, 23, 24, 25, 100, 101} /\ done = FALSE
+         ELSE IF fam = 20 THEN ThreeLines(0) ELSE IF fam = 21 THEN Plain(0) ELSE IF fam = 22 THEN Concat2(0) ELSE IF fam = 23 THEN Concat3(0) ELSE IF fam = 24 THEN Escapes(0) ELSE IF fam = 25 THEN CommentJoins(0) ELSE IF fam = 26 THEN Edges2(1) ELSE IF fam = 27 THEN Edges2(5) ELSE IF fam = 28 THEN Edges3(1) ELSE IF fam = 29 THEN Edges3(5) ELSE Random(0)
+GInit == fam \in PreFams \cup {20, 21, 22, 23, 24, 25, 26, 27, 28, 100, 101} \cup (IF Thorough THEN {29} ELSE {}) /\ done = FALSE
 GNext == /\ ~done /\ done' = TRUE /\ UNCHANGED fam
          /\ ndJsonSerialize("vec_" \o ToString(fam) \o ".ndjson", SetToSeq(Cases))
 =============================================================================
